@@ -1,6 +1,6 @@
 //! A small backtracking regular-expression matcher, independent of the `regex` / `fancy-regex`
 //! crates the tool uses. Supported: literals, `.`, classes `[abc] [a-z] [^x]`, escapes
-//! `\d \w \s \. \/ \\` etc., groups `( )`, alternation `|`, quantifiers `* + ?`, anchors `^ $`.
+//! `\d \w \s \. \/ \\` etc., groups `( )`, alternation `|`, quantifiers `* + ? {n} {n,} {n,m}`, anchors `^ $`.
 //! The generators only produce patterns inside this subset. Semantics: "matches somewhere"
 //! (unanchored search), like `Regex::is_match`.
 
@@ -17,6 +17,8 @@ enum Node {
     Star(Box<Node>),
     Plus(Box<Node>),
     Opt(Box<Node>),
+    /// `{n}`, `{n,}`, `{n,m}`
+    Rep(Box<Node>, usize, Option<usize>),
 }
 
 pub struct Re(Node);
@@ -57,6 +59,38 @@ impl<'a> P<'a> {
                 Some('?') => {
                     self.i += 1;
                     Node::Opt(Box::new(atom))
+                }
+                Some('{') => {
+                    self.i += 1;
+                    let num = |p: &mut Self| -> Option<usize> {
+                        let st = p.i;
+                        while p.peek().map_or(false, |c| c.is_ascii_digit()) {
+                            p.i += 1;
+                        }
+                        if p.i == st {
+                            return None;
+                        }
+                        p.s[st..p.i].iter().collect::<String>().parse().ok()
+                    };
+                    let lo = num(self)?;
+                    let hi = if self.peek() == Some(',') {
+                        self.i += 1;
+                        if self.peek() == Some('}') {
+                            None
+                        } else {
+                            Some(num(self)?)
+                        }
+                    } else {
+                        Some(lo)
+                    };
+                    if self.peek() != Some('}') {
+                        return None;
+                    }
+                    self.i += 1;
+                    if hi.map_or(false, |h| h < lo) {
+                        return None;
+                    }
+                    Node::Rep(Box::new(atom), lo, hi)
                 }
                 _ => atom,
             };
@@ -180,12 +214,23 @@ fn m(n: &Node, t: &[char], i: usize, k: &mut dyn FnMut(usize) -> bool) -> bool {
         Node::Opt(x) => m(x, t, i, k) || k(i),
         Node::Star(x) => star(x, t, i, k),
         Node::Plus(x) => m(x, t, i, &mut |j| star(x, t, j, k)),
+        Node::Rep(x, lo, hi) => rep(x, *lo, *hi, t, i, k),
     }
 }
 fn cat(xs: &[Node], t: &[char], i: usize, k: &mut dyn FnMut(usize) -> bool) -> bool {
     match xs.split_first() {
         None => k(i),
         Some((h, rest)) => m(h, t, i, &mut |j| cat(rest, t, j, k)),
+    }
+}
+fn rep(x: &Node, lo: usize, hi: Option<usize>, t: &[char], i: usize, k: &mut dyn FnMut(usize) -> bool) -> bool {
+    if lo > 0 {
+        return m(x, t, i, &mut |j| rep(x, lo - 1, hi.map(|h| h - 1), t, j, k));
+    }
+    match hi {
+        Some(0) => k(i),
+        Some(h) => m(x, t, i, &mut |j| j > i && rep(x, 0, Some(h - 1), t, j, k)) || k(i),
+        None => star(x, t, i, k),
     }
 }
 fn star(x: &Node, t: &[char], i: usize, k: &mut dyn FnMut(usize) -> bool) -> bool {
@@ -215,6 +260,12 @@ mod tests {
             ("^(a|b)*$", "abca", false),
             ("\\d+", "ab12", true),
             ("", "", true),
+            ("ab{2}c", "xabbcx", true),
+            ("ab{2}c", "ab{2}c", false),
+            ("^a{1,2}$", "aaa", false),
+            ("^a{1,2}$", "aa", true),
+            ("(ab){2,}", "ababab", true),
+            ("b{0}c", "c", true),
         ] {
             assert_eq!(Re::new(p).unwrap().is_match(s), e, "{} on {}", p, s);
         }
